@@ -1,0 +1,17 @@
+//go:build verif
+
+package quickfix
+
+// Machine-checked contracts for the verification machinery in /verif (build tag verif).
+// This file contains comments only; with the tag off it is not compiled, with the tag on it
+// adds nothing to the binary. Syntax: see /verif/DESIGN.md section 3.
+
+//@ recspec wdec(d []byte, k int) mathint = k <= 0 ? 0 : wrap64(wdec(d, k-1)*10 + d[k-1] - 48)
+//@ spec alldigits(d []byte, k int) bool = forall i :: 0 <= i && i < k ==> 48 <= d[i] && d[i] <= 57
+
+//@ func parseUInt [C09,C14]
+//@   ensures @accept (err == nil) <==> (len(d) > 0 && alldigits(d, len(d)))
+//@   ensures @value err == nil ==> n == wdec(d, len(d))
+//@   loop 1 invariant @digits alldigits(d, $i+1)
+//@   loop 1 invariant @acc n == wdec(d, $i+1)
+//@   loop 1 decreases len(d) - $i
